@@ -24,6 +24,7 @@ type DriverFn struct {
 	Fn     *ssa.Function
 	Node   string     // parser type of the node parameter ("" if none)
 	Traces [][]string // event sequences of the success paths
+	CondTraces [][]string // the same paths with "?param=true/false" markers where a bool parameter decided a branch
 	Trunc  bool
 }
 
@@ -78,7 +79,8 @@ func BuildDriverFacts(w *World) (*DriverFacts, error) {
 				d.Node = n.Obj().Name()
 			}
 		}
-		d.Traces, d.Trunc = df.traces(fn, iface)
+		d.CondTraces, d.Trunc = df.traces(fn, iface)
+		d.Traces = stripMarkers(d.CondTraces)
 		df.Fns = append(df.Fns, d)
 	}
 	return df, nil
@@ -299,6 +301,15 @@ func (df *DriverFacts) traces(fn *ssa.Function, iface *types.Interface) ([][]str
 		if ifi, ok := last.(*ssa.If); ok && len(b.Succs) == 2 {
 			c, neg := condOf(b)
 			_ = ifi
+			if bp, ok := c.(*ssa.Parameter); ok && isBool(bp.Type()) {
+				for i, s := range b.Succs {
+					condTrue := (i == 0) != neg
+					cur = append(cur, fmt.Sprintf("?%s=%v", bp.Name(), condTrue))
+					dfs(s, b, f)
+					cur = cur[:len(cur)-1]
+				}
+				return
+			}
 			if bo, ok := c.(*ssa.BinOp); ok {
 				// nil tests
 				if k, isK := bo.Y.(*ssa.Const); isK && k.IsNil() && (bo.Op == token.EQL || bo.Op == token.NEQ) {
@@ -377,6 +388,27 @@ func (df *DriverFacts) traces(fn *ssa.Function, iface *types.Interface) ([][]str
 	return uniqT, trunc
 }
 
+// stripMarkers removes the "?param=…" markers and de-duplicates.
+func stripMarkers(ts [][]string) [][]string {
+	seen := map[string]bool{}
+	var out [][]string
+	for _, t := range ts {
+		var c []string
+		for _, e := range t {
+			if !strings.HasPrefix(e, "?") {
+				c = append(c, e)
+			}
+		}
+		k := strings.Join(c, " ")
+		if !seen[k] {
+			seen[k] = true
+			out = append(out, c)
+		}
+	}
+	sort.Slice(out, func(i, j int) bool { return strings.Join(out[i], " ") < strings.Join(out[j], " ") })
+	return out
+}
+
 // errorBranchReturn: `return …, err` (or `return err`) inside the true branch of `if err != nil`.
 func errorBranchReturn(ret *ssa.Return) bool {
 	if len(ret.Results) == 0 {
@@ -436,7 +468,7 @@ var protoSpec = map[string]string{
 	"SliceInstantiation":               `^(eval\(Values\[\*\]\) )*conv\(SliceInstantiation\)$`,
 	"Input":                            `^(eval\(Prompt\) )?conv\(Input\)$`,
 	"Copy":                             `^eval\(Source\) conv\(Copy\)$`,
-	"Itoa":                             `^eval\(Value\)$`,
+	"Itoa":                             `^eval\(Value\)( conv\(Nop\))?$`, // the no-op keeps a block non-empty when the result is unused
 	"Exists":                           `^eval\(Path\) conv\(Exists\)$`,
 	"Len":                              `^eval\(Expression\) conv\((StringLen|SliceLen)\)$`,
 	"Read":                             `^eval\(Path\) conv\(ReadFile\)$`,
